@@ -537,45 +537,7 @@ func checkC07(p *Prog, r *Report) {
 	// the burn MODULE account (where coins are moved to be burned) stays a module account: nobody can create a plain account at its
 	// address before the first burn creates it (bank refuses transfers to blocked addresses, feegrant/vesting refuse to create accounts
 	// there). Otherwise auth's GetModuleAccount panics ("account is not a module account") inside the burn and every block halts.
-	if ba := p.Func(Rel("app"), "BlockedAddresses"); ba != nil {
-		bo := NewOrigin(p, ba)
-		unblocked, nDel := []string{}, 0
-		for _, cs := range callSites(ba) {
-			if cs.Name != "builtin:delete" {
-				continue
-			}
-			nDel++
-			kt := bo.Of(cs.Instr.Common().Args[1])
-			name := "?"
-			kt.Walk(func(t *Term) {
-				if t.Op == "const" && strings.HasPrefix(t.Name, `"`) {
-					name = strings.Trim(t.Name, `"`)
-				}
-			})
-			unblocked = append(unblocked, name)
-		}
-		okB := !has(unblocked, strings.Trim(modC, `"`)) && !has(unblocked, "?")
-		r.Check(okB, kp("WIRE", "BlockedAddresses∌burn-module"), "the burn module account's address is blocked for incoming transfers and account creation", p.FnPos(ba),
-			fmt.Sprintf("addresses removed from the blocked set: %v", unblocked),
-			fmt.Sprintf("BlockedAddresses unblocks %v: a plain account can be created at the burn module's address before the first burn, after which auth.GetModuleAccount panics inside every burn", unblocked))
-		r.Floor("control:delete-calls-in-BlockedAddresses", nDel, 1)
-		passed := false
-		if newFn := p.Func(Rel("app"), "New"); newFn != nil {
-			no := NewOrigin(p, newFn)
-			for _, cs := range callSites(newFn) {
-				if strings.HasSuffix(cs.Name, ").InitKeyAndKeepers") {
-					for _, a := range cs.Instr.Common().Args {
-						if no.Of(a).IsCall("app.BlockedAddresses") {
-							passed = true
-						}
-					}
-				}
-			}
-		}
-		r.Check(passed, kp("WIRE", "InitKeyAndKeepers←BlockedAddresses()"), "the keepers are built with the application's blocked-address set", p.FnPos(ba), "app.New passes BlockedAddresses()", "app.New does not pass BlockedAddresses() to InitKeyAndKeepers")
-	} else {
-		r.Fail(kp("WIRE", "BlockedAddresses#anchor"), "anchor", "app/app.go", "BlockedAddresses not found")
-	}
+	checkBurnAccountBlocked(p, r, kp, modC)
 	r.Check(has(w.Manager, Rel("x/burn")), kp("WIRE", "manager∋burn"), "the burn module is registered in the module manager", p.Pos(w.ManagerPos), "present", "burn.NewAppModule is not passed to module.NewManager")
 	// keeper built from the bank keeper
 	initK := p.Method(Rel("app/keepers"), "AppKeepersWithKey", "InitKeyAndKeepers")
@@ -648,4 +610,49 @@ func rawFieldLoad(v ssa.Value) (string, bool) {
 		return fieldName(f.X.Type(), f.Field), true
 	}
 	return "", false
+}
+
+// checkBurnAccountBlocked (shared by C07 and C17): the burn MODULE account stays a module account — its address is in the bank's
+// blocked set (nobody can send to it or create a plain account there before the first burn creates the module account);
+// otherwise auth's GetModuleAccount panics inside the burn and every block halts.
+func checkBurnAccountBlocked(p *Prog, r *Report, kp func(string, string) string, modC string) {
+	if ba := p.Func(Rel("app"), "BlockedAddresses"); ba != nil {
+		bo := NewOrigin(p, ba)
+		unblocked, nDel := []string{}, 0
+		for _, cs := range callSites(ba) {
+			if cs.Name != "builtin:delete" {
+				continue
+			}
+			nDel++
+			kt := bo.Of(cs.Instr.Common().Args[1])
+			name := "?"
+			kt.Walk(func(t *Term) {
+				if t.Op == "const" && strings.HasPrefix(t.Name, `"`) {
+					name = strings.Trim(t.Name, `"`)
+				}
+			})
+			unblocked = append(unblocked, name)
+		}
+		okB := !has(unblocked, strings.Trim(modC, `"`)) && !has(unblocked, "?")
+		r.Check(okB, kp("WIRE", "BlockedAddresses∌burn-module"), "the burn module account's address is blocked for incoming transfers and account creation", p.FnPos(ba),
+			fmt.Sprintf("addresses removed from the blocked set: %v", unblocked),
+			fmt.Sprintf("BlockedAddresses unblocks %v: a plain account can be created at the burn module's address before the first burn, after which auth.GetModuleAccount panics inside every burn", unblocked))
+		r.Floor("control:delete-calls-in-BlockedAddresses", nDel, 1)
+		passed := false
+		if newFn := p.Func(Rel("app"), "New"); newFn != nil {
+			no := NewOrigin(p, newFn)
+			for _, cs := range callSites(newFn) {
+				if strings.HasSuffix(cs.Name, ").InitKeyAndKeepers") {
+					for _, a := range cs.Instr.Common().Args {
+						if no.Of(a).IsCall("app.BlockedAddresses") {
+							passed = true
+						}
+					}
+				}
+			}
+		}
+		r.Check(passed, kp("WIRE", "InitKeyAndKeepers←BlockedAddresses()"), "the keepers are built with the application's blocked-address set", p.FnPos(ba), "app.New passes BlockedAddresses()", "app.New does not pass BlockedAddresses() to InitKeyAndKeepers")
+	} else {
+		r.Fail(kp("WIRE", "BlockedAddresses#anchor"), "anchor", "app/app.go", "BlockedAddresses not found")
+	}
 }
